@@ -384,7 +384,7 @@ impl Fw {
     /// library's `is_allowed_fee_token`, compared with the model set.
     fn check_list(&self, i: &Inst, m: &Model, after: &Op) -> Result<(), Violation> {
         let e = &i.e;
-        let (count, entries, index, allowed): (u32, Vec<Option<Address>>, Vec<Option<u32>>, Vec<bool>) = e.as_contract(&i.fwd, || {
+        let (count, entries, index, allowed): (u32, Vec<Option<Address>>, Vec<Option<u32>>, Vec<Option<bool>>) = e.as_contract(&i.fwd, || {
             // (whichever durability the entries are kept in)
             let st = e.storage();
             let count: u32 = st.instance().get(&FK::Count).or_else(|| st.persistent().get(&FK::Count)).unwrap_or(0);
@@ -399,9 +399,18 @@ impl Fw {
                     st.persistent().get::<_, u32>(&k).or_else(|| st.instance().get::<_, u32>(&k))
                 })
                 .collect();
-            let allowed = i.toks.iter().map(|t| stellar_fee_abstraction::is_allowed_fee_token(e, t)).collect();
+            // a query that fails (e.g. on a dangling index entry) is reported below, not a harness panic
+            let allowed: Vec<Option<bool>> = i
+                .toks
+                .iter()
+                .map(|t| std::panic::catch_unwind(std::panic::AssertUnwindSafe(|| stellar_fee_abstraction::is_allowed_fee_token(e, t))).ok())
+                .collect();
             (count, entries, index, allowed)
         });
+        for (k, a) in allowed.iter().enumerate() {
+            ensure!(a.is_some(), "allow-list-enumeration", "after {:?}: is_allowed_fee_token(T{}) fails instead of answering (stored index {:?}, Count {})", after, k + 1, index[k], count);
+        }
+        let allowed: Vec<bool> = allowed.into_iter().map(|a| a.unwrap_or(false)).collect();
         ensure!(
             count as usize == m.list.len(),
             "allow-list-enumeration",
